@@ -37,6 +37,9 @@ static char size_cls[16];
 /* element count of the array-taking ops (plan field n=, 0..12) */
 static int cnt = 3;
 #define NMAX 13
+/* the n elements handed to an array-taking function are the last n of the array, so that element n is beyond it
+ * (stack redzone) - for n = 0 the function gets a pointer to no element at all */
+#define TAIL(A, N) ((A) + (NMAX - (N)))
 
 /* long-lived keys, created at boot outside any fault window */
 static rsa_t rsa_pub, rsa_prv;
@@ -428,8 +431,8 @@ OP(bn_lag) {
 	ep_curve_get_ord(n);
 	for (int i = 0; i <= NMAX; i++) { bn_null(c[i]); bn_new(c[i]); bn_zero(c[i]); }
 	for (int i = 0; i < NMAX; i++) { bn_null(a[i]); bn_new(a[i]); bn_mod(a[i], B[i % NB], n); bn_add_dig(a[i], a[i], i + 1); }
-	W(bn_lag(c, (const bn_t *)a, n, (size_t)cnt));
-	for (int i = 0; i <= cnt; i++) { out_bn(c[i]); }
+	W(bn_lag(TAIL(c, cnt), (const bn_t *)TAIL(a, cnt), n, (size_t)cnt));
+	for (int i = 0; i <= cnt; i++) { out_bn(TAIL(c, cnt)[i]); }
 	for (int i = 0; i <= NMAX; i++) { bn_free(c[i]); }
 	for (int i = 0; i < NMAX; i++) { bn_free(a[i]); }
 	bn_free(n);
@@ -439,7 +442,7 @@ OP(bn_evl) {
 	bn_null(n); bn_new(n);
 	ep_curve_get_ord(n);
 	for (int i = 0; i < NMAX; i++) { bn_null(a[i]); bn_new(a[i]); bn_mod(a[i], B[i % NB], n); }
-	W(bn_evl(R[0], (const bn_t *)a, B[3], n, (size_t)cnt));
+	W(bn_evl(R[0], (const bn_t *)TAIL(a, cnt), B[3], n, (size_t)cnt));
 	out_bn(R[0]);
 	for (int i = 0; i < NMAX; i++) { bn_free(a[i]); }
 	bn_free(n);
@@ -456,8 +459,8 @@ OP(bn_mod_inv_sim) {
 		if (bn_is_zero(a[i])) bn_set_dig(a[i], 2);
 		bn_zero(c[i]);
 	}
-	W(bn_mod_inv_sim(c, (const bn_t *)a, n, cnt));
-	for (int i = 0; i < cnt; i++) { out_bn(c[i]); }
+	W(bn_mod_inv_sim(TAIL(c, cnt), (const bn_t *)TAIL(a, cnt), n, cnt));
+	for (int i = 0; i < cnt; i++) { out_bn(TAIL(c, cnt)[i]); }
 	for (int i = 0; i < NMAX; i++) { bn_free(a[i]); bn_free(c[i]); }
 	bn_free(n);
 }
@@ -468,7 +471,7 @@ OP(bn_mxp_sim_lot) {
 		bn_mod(a[i], B[i % NB], B[2]); bn_add_dig(a[i], a[i], (dig_t)i + 2);
 		bn_mod_2b(b[i], B[(i + 1) % NB], 70);
 	}
-	W(bn_mxp_sim_lot(R[0], (const bn_t *)a, (const bn_t *)b, B[2], (size_t)cnt));
+	W(bn_mxp_sim_lot(R[0], (const bn_t *)TAIL(a, cnt), (const bn_t *)TAIL(b, cnt), B[2], (size_t)cnt));
 	if (cnt > 0) out_bn(R[0]);
 	for (int i = 0; i < NMAX; i++) { bn_free(a[i]); bn_free(b[i]); }
 }
@@ -486,8 +489,8 @@ OP(fp_inv_sim) {
 		if (fp_is_zero(a[i])) fp_set_dig(a[i], 5);
 		fp_zero(c[i]);
 	}
-	W(fp_inv_sim(c, (const fp_t *)a, cnt));
-	for (int i = 0; i < cnt; i++) { out_fp(c[i]); }
+	W(fp_inv_sim(TAIL(c, cnt), (const fp_t *)TAIL(a, cnt), cnt));
+	for (int i = 0; i < cnt; i++) { out_fp(TAIL(c, cnt)[i]); }
 	for (int i = 0; i < NMAX; i++) { fp_free(a[i]); fp_free(c[i]); }
 }
 OP(fp2_inv_sim) {
@@ -498,8 +501,8 @@ OP(fp2_inv_sim) {
 		if (fp2_is_zero(a[i])) fp_set_dig(a[i][0], 5);
 		fp2_zero(c[i]);
 	}
-	W(fp2_inv_sim(c, (const fp2_t *)a, cnt));
-	for (int i = 0; i < cnt; i++) { out_fp(c[i][0]); out_fp(c[i][1]); }
+	W(fp2_inv_sim(TAIL(c, cnt), (const fp2_t *)TAIL(a, cnt), cnt));
+	for (int i = 0; i < cnt; i++) { out_fp(TAIL(c, cnt)[i][0]); out_fp(TAIL(c, cnt)[i][1]); }
 	for (int i = 0; i < NMAX; i++) { fp2_free(a[i]); fp2_free(c[i]); }
 }
 OP(fp_exp_basic) { W(fp_exp_basic(FR[0], F[0], B[0])); out_fp(FR[0]); }
@@ -565,8 +568,8 @@ OP(ep_norm) { ep_dbl_projc(PR[1], P[0]); W(ep_norm(PR[0], PR[1])); out_ep(PR[0])
 OP(ep_norm_sim) {
 	ep_t t[NMAX], r[NMAX];
 	for (int i = 0; i < NMAX; i++) { ep_null(t[i]); ep_null(r[i]); ep_new(t[i]); ep_new(r[i]); ep_dbl_projc(t[i], P[i % NP]); ep_set_infty(r[i]); }
-	W(ep_norm_sim(r, (const ep_t *)t, cnt));
-	for (int i = 0; i < cnt; i++) { out_ep(r[i]); }
+	W(ep_norm_sim(TAIL(r, cnt), (const ep_t *)TAIL(t, cnt), cnt));
+	for (int i = 0; i < cnt; i++) { out_ep(TAIL(r, cnt)[i]); }
 	for (int i = 0; i < NMAX; i++) { ep_free(t[i]); ep_free(r[i]); }
 }
 OP(ep_mul_basic) { W(ep_mul_basic(PR[0], P[0], B[0])); out_ep(PR[0]); }
@@ -594,7 +597,7 @@ static void sim_lot(int n) {
 		ep_copy(p[i], P[i % NP]); bn_copy(k[i], B[i % NB]);
 		if (i >= NB) bn_add_dig(k[i], k[i], (dig_t)i);
 	}
-	W(ep_mul_sim_lot(PR[0], (const ep_t *)p, (const bn_t *)k, n));
+	W(ep_mul_sim_lot(PR[0], (const ep_t *)TAIL(p, n), (const bn_t *)TAIL(k, n), n));
 	out_ep(PR[0]);
 	for (int i = 0; i < NMAX; i++) { ep_free(p[i]); bn_free(k[i]); }
 }
@@ -607,7 +610,7 @@ OP(ep_mul_sim_dig) {
 	ep_t p[NMAX];
 	dig_t k[NMAX];
 	for (int i = 0; i < NMAX; i++) { ep_null(p[i]); ep_new(p[i]); ep_copy(p[i], P[i % NP]); k[i] = B[i % NB]->dp[0] + (dig_t)i; }
-	W(ep_mul_sim_dig(PR[0], (const ep_t *)p, k, cnt));
+	W(ep_mul_sim_dig(PR[0], (const ep_t *)TAIL(p, cnt), TAIL(k, cnt), cnt));
 	out_ep(PR[0]);
 	for (int i = 0; i < NMAX; i++) { ep_free(p[i]); }
 }
@@ -974,30 +977,37 @@ OP(pc_map_simn) {
 	g1_t p[NMAX]; g2_t q[NMAX];
 	int m = cnt % 6;
 	for (int i = 0; i < NMAX; i++) { g1_null(p[i]); g2_null(q[i]); g1_new(p[i]); g2_new(q[i]); g1_copy(p[i], G1[i % 4]); g2_copy(q[i], G2[(i + 1) % 4]); }
-	if (m >= 3 && (cnt & 1)) g1_set_infty(p[1]);
-	W(pc_map_sim(GT[3], (const g1_t *)p, (const g2_t *)q, m));
+	if (m >= 3 && (cnt & 1)) g1_set_infty(TAIL(p, m)[1]);
+	W(pc_map_sim(GT[3], (const g1_t *)TAIL(p, m), (const g2_t *)TAIL(q, m), m));
 	out_gt(GT[3]);
 	for (int i = 0; i < NMAX; i++) { g1_free(p[i]); g2_free(q[i]); }
 }
 OP(g1_mul_sim_lot) {
 	g1_t p[NMAX]; bn_t k[NMAX];
 	for (int i = 0; i < NMAX; i++) { g1_null(p[i]); bn_null(k[i]); g1_new(p[i]); bn_new(k[i]); g1_copy(p[i], G1[i % 4]); bn_copy(k[i], B[i % NB]); bn_add_dig(k[i], k[i], (dig_t)i); }
-	W(g1_mul_sim_lot(G1[3], (const g1_t *)p, (const bn_t *)k, cnt));
+	W(g1_mul_sim_lot(G1[3], (const g1_t *)TAIL(p, cnt), (const bn_t *)TAIL(k, cnt), cnt));
 	out_ep(G1[3]);
 	for (int i = 0; i < NMAX; i++) { g1_free(p[i]); bn_free(k[i]); }
 }
 OP(g2_mul_sim_lot) {
 	g2_t p[NMAX]; bn_t k[NMAX];
 	for (int i = 0; i < NMAX; i++) { g2_null(p[i]); bn_null(k[i]); g2_new(p[i]); bn_new(k[i]); g2_copy(p[i], G2[i % 4]); bn_copy(k[i], B[i % NB]); bn_add_dig(k[i], k[i], (dig_t)i); }
-	W(g2_mul_sim_lot(G2[3], (const g2_t *)p, (const bn_t *)k, (size_t)cnt));
+	W(g2_mul_sim_lot(G2[3], (const g2_t *)TAIL(p, cnt), (const bn_t *)TAIL(k, cnt), (size_t)cnt));
 	out_g2(G2[3]);
 	for (int i = 0; i < NMAX; i++) { g2_free(p[i]); bn_free(k[i]); }
+}
+OP(ep2_mul_sim_dig) {
+	g2_t p[NMAX]; dig_t k[NMAX];
+	for (int i = 0; i < NMAX; i++) { g2_null(p[i]); g2_new(p[i]); g2_copy(p[i], G2[i % 4]); k[i] = B[i % NB]->dp[0] + (dig_t)i; }
+	W(ep2_mul_sim_dig(G2[3], (const ep2_t *)TAIL(p, cnt), TAIL(k, cnt), (size_t)cnt));
+	out_g2(G2[3]);
+	for (int i = 0; i < NMAX; i++) { g2_free(p[i]); }
 }
 OP(ep2_norm_sim) {
 	g2_t t[NMAX], r[NMAX];
 	for (int i = 0; i < NMAX; i++) { g2_null(t[i]); g2_null(r[i]); g2_new(t[i]); g2_new(r[i]); g2_dbl(t[i], G2[i % 4]); g2_set_infty(r[i]); }
-	W(ep2_norm_sim(r, (const ep2_t *)t, cnt));
-	for (int i = 0; i < cnt; i++) { out_g2(r[i]); }
+	W(ep2_norm_sim(TAIL(r, cnt), (const ep2_t *)TAIL(t, cnt), cnt));
+	for (int i = 0; i < cnt; i++) { out_g2(TAIL(r, cnt)[i]); }
 	for (int i = 0; i < NMAX; i++) { g2_free(t[i]); g2_free(r[i]); }
 }
 OP(g1_map) { W(g1_map(G1[3], msg, msg_len)); out_ep(G1[3]); }
@@ -1132,7 +1142,7 @@ static const op_t ops[] = {
 	E(cp_ecdsa_gen, 0), E(cp_ecss, 0), E(cp_ecdh, 0), E(cp_ecmqv, 0), E(cp_ecies, 0), E(cp_vbnn, 0), E(cp_pokdl, 0),
 	E(cp_ped_com, 0),
 	E(g1_mul, 1), E(g1_mul_gen, 1), E(g2_mul, 1), E(g2_mul_gen, 1), E(g2_add, 1), E(g2_mul_sim, 1), E(gt_exp, 1),
-	E(gt_exp_gen, 1), E(gt_inv_mul, 1), E(pc_map, 1), E(pc_map_sim2, 1), E(pc_map_simn, 1), E(g1_mul_sim_lot, 1), E(g2_mul_sim_lot, 1), E(ep2_norm_sim, 1), E(g1_map, 1), E(g2_map, 1),
+	E(gt_exp_gen, 1), E(gt_inv_mul, 1), E(pc_map, 1), E(pc_map_sim2, 1), E(pc_map_simn, 1), E(g1_mul_sim_lot, 1), E(g2_mul_sim_lot, 1), E(ep2_norm_sim, 1), E(ep2_mul_sim_dig, 1), E(g1_map, 1), E(g2_map, 1),
 	E(g1_is_valid, 1), E(g2_is_valid, 1), E(gt_is_valid, 1), E(g2_write_read, 1), E(gt_write_read, 1),
 	E(cp_bls, 1), E(cp_bls_gen, 1), E(cp_bbs, 1), E(cp_zss, 1), E(cp_cls, 1), E(cp_pss, 1), E(cp_ibe, 1),
 	E(cp_sokaka, 1), E(cp_pdpub, 1), E(pc_param_set_any, 1), E(ep_param_cycle, 0),
